@@ -25,7 +25,7 @@ def _worker(args):
     from pyvc.repo import Repo
     from pyvc.verify import verify_function
     m = importlib.import_module(modname)
-    contracts = {c.target: c for c in m.CONTRACTS}
+    contracts = {c.key: c for c in m.CONTRACTS}
     repo = Repo(REPO_ROOT)
     rep = verify_function(repo, contracts, target, prop_id, timeout_ms=timeout_ms,
                           spec_funcs=getattr(m, "SPEC_FUNCS", None), max_paths=getattr(m, "MAX_PATHS", 4000))
@@ -41,7 +41,7 @@ def _lemma_worker(args):
         from pyvc.repo import Repo
         from pyvc.verify import run_script
         name, script = m.LEMMAS[idx]
-        contracts = {c.target: c for c in m.CONTRACTS}
+        contracts = {c.key: c for c in m.CONTRACTS}
         rep = run_script(Repo(REPO_ROOT), contracts, prop_id, name, script, timeout_ms)
         return ("ok", rep, time.time() - t)
     except Exception as e:
@@ -124,7 +124,8 @@ def run_property(modname: str, tier: str = "quick", write_baseline=False) -> int
             continue
         seen_fail.add(key)
         confirmed, observation = False, None
-        if replayer is not None and o.witness is not None and "concretiser_error" not in (o.witness if isinstance(o.witness, dict) else {}):
+        if replayer is not None and (o.witness is not None or getattr(m, "REPLAY_WITHOUT_WITNESS", False)) \
+                and "concretiser_error" not in (o.witness if isinstance(o.witness, dict) else {}):
             try:
                 res = replayer(o.name, o.witness)
                 confirmed, observation = bool(res.get("confirmed")), res
